@@ -14,6 +14,12 @@ ST_SERDE = "ST6: YAML/serde front half not executed; values built programmatical
 
 HARNESSES = []
 
+# Heavy harnesses run without CBMC's pointer-validity instrumentation and Kani's per-assertion
+# reachability probes: the code under test is safe Rust (memory errors are impossible outside the
+# few `unsafe` lines of std / the mock), Rust's own panics (bounds, overflow, unwrap) remain
+# assertions, and non-vacuity is shown by explicit kani::cover! witnesses instead.
+LIGHT = ["-Z", "unstable-options", "--no-memory-safety-checks", "--no-assertion-reach-checks", "--no-undefined-function-checks"]
+
 
 def H(**kw):
     kw.setdefault("tier", "quick")
@@ -78,12 +84,13 @@ H(prop="C16", name="c16_display_context_n9", crate="core-h", module="c16_positio
   shape="STR+1 node", bounds="all texts <= 9 bytes over {a,\\n}, every node range, before,after <= 2; unwind 11")
 
 # ---------------------------------------------------------------- C10
-H(prop="C10", name="c10_input_edit_exact_n4", crate="core-h", module="c10_edit", mem_gb=24,
-  decides="AstGrep::edit: new text == splice; the old tree receives exactly one Tree::edit whose InputEdit (bytes and row/col points) describes the change exactly; re-parse is given the old tree",
-  functions=["ast_grep_core::node::Root::do_edit", "ast_grep_core::source::perform_edit",
-             "ast_grep_core::source::<String as Content>::accept_edit", "ast_grep_core::source::position_for_offset"],
-  assumes=[ST_TS, "tree-sitter contract: incremental parse == fresh parse iff the old tree was edited exactly once with an exact InputEdit"],
-  shape="STR", bounds="every size class len<=4, position<=len, deleted<=len-position, inserted<=2 enumerated concretely (105 classes) x symbolic contents over {a,\\n}/{b,\\n}; unwind 7")
+for ln in range(5):
+    H(prop="C10", name=f"c10_input_edit_exact_len{ln}", crate="core-h", module="c10_edit", mem_gb=20, timeout=1800, tier="quick" if ln <= 3 else "thorough",
+      decides="AstGrep::edit: new text == splice; the old tree receives exactly one Tree::edit whose InputEdit (bytes and row/col points) describes the change exactly; re-parse is given the old tree",
+      functions=["ast_grep_core::node::Root::do_edit", "ast_grep_core::source::perform_edit",
+                 "ast_grep_core::source::<String as Content>::accept_edit", "ast_grep_core::source::position_for_offset"],
+      assumes=[ST_TS, "tree-sitter contract: incremental parse == fresh parse iff the old tree was edited exactly once with an exact InputEdit"],
+      shape="STR", bounds=f"text length {ln}: every (position, deleted length, inserted length <= 2) size class enumerated concretely x symbolic contents over {{a,\\n}}/{{b,\\n}}; unwind 7")
 
 # ---------------------------------------------------------------- small config kernels
 H(prop="C20", name="c20_resolve_char_python", crate="config-h", module="small_kernels",
@@ -94,7 +101,7 @@ H(prop="C11", name="c11_transform_source_total", crate="config-h", module="small
   decides="Transformation::used_vars / parse never panic on any `source` string",
   functions=["ast_grep_config::transform::transformation::Transformation::used_vars",
              "ast_grep_config::transform::transformation::parse_meta_var"],
-  shape="STR", bounds="all strings of <= 3 symbols over {$, A, a, e-acute(2B)} incl. empty; unwind 6",
+  shape="STR", bounds="every length 0..3 (concrete loop) x symbolic bytes over {$, A, a, 0xC3, 0xA9} restricted to valid UTF-8; unwind 6",
   kf_keys=["transform_source_first_char"])
 H(prop="C14", name="c14_suppress_set_parse", crate="config-h", module="small_kernels",
   decides="parse_suppression_set(comment) == ids listed after `ast-grep-ignore:` (trimmed), None iff nothing listed",
@@ -126,9 +133,16 @@ for key, (dec, funcs) in NAV.items():
 # ---------------------------------------------------------------- C03 / C02 alignment (FLAT)
 REC_FLAT = {
   "ast_grep_core::match_tree::does_node_match_exactly::<": 1,
-  "ast_grep_core::match_tree::match_node::match_node_impl::<": 2,
+  "ast_grep_core::match_tree::match_node::match_node_impl::<": 1,
   "ast_grep_core::match_tree::match_node::match_nodes_impl_recursive::<": 1,
   "ast_grep_core::match_tree::match_node::may_match_ellipsis_impl::<": 1,
+}
+# matcher loops iterate over goals/candidates (<= 4 here); the global unwind must be 8 for the
+# 7-byte kind-name compares, so these loops get their own smaller bound (assertions stay on)
+LOOPS_FLAT = {
+  "ast_grep_core::match_tree::match_node::match_nodes_impl_recursive::<": 6,
+  "ast_grep_core::match_tree::match_node::may_match_ellipsis_impl::<": 6,
+  "ast_grep_core::match_tree::match_node::match_single_node_while_skip_trivial::<": 6,
 }
 ALIGN_FUNCS = ["ast_grep_core::match_tree::match_node::match_node_impl", "ast_grep_core::match_tree::match_node::match_nodes_impl_recursive",
                "ast_grep_core::match_tree::match_node::may_match_ellipsis_impl", "ast_grep_core::match_tree::strictness::MatchStrictness::match_terminal",
@@ -142,35 +156,36 @@ ALIGN_ENV = [  # (harness suffix, pattern children, k, tier)
   ("t_t_k3", "[T,T]", 3, "thorough"), ("t_ell_t_k3", "[T,$$$B,T]", 3, "thorough"),
 ]
 for suf, pat, k, tier in ALIGN_ENV:
-    H(prop="C03", name=f"c03_env_{suf}", crate="core-h", module="c03_align", recursion=REC_FLAT, timeout=1500 if tier == "quick" else 5400, tier=tier, mem_gb=20,
+    H(prop="C03", name=f"c03_env_{suf}", crate="core-h", module="c03_align", kani_args=LIGHT, recursion=REC_FLAT, loops=LOOPS_FLAT, features=["hooks", "n4"], timeout=1500 if tier == "quick" else 5400, tier=tier, mem_gb=20,
       decides=f"pattern {pat}: match_node = Some on a FLAT({k}) node => a legal alignment exists (oracle written from the property text)",
       functions=ALIGN_FUNCS, assumes=ALIGN_ASSUMES + [ST_MAP], kf_keys=KF_ELL,
-      shape=f"FLAT({k})", bounds=f"exactly {k} candidate leaves with symbolic kind in {{ident,number,comment,punct_a,punct_b}}, 1-byte texts over {{x,y}}; goal terminals symbolic incl. ERROR kind; all 5 strictness; unwind 10, recursion depth 2")
+      shape=f"FLAT({k})", bounds=f"exactly {k} candidate leaves with symbolic kind in {{ident,number,comment,punct_a,punct_b}}, 1-byte texts over {{x,y}}; goal terminals symbolic incl. ERROR kind; all 5 strictness; arena of 4 nodes, unwind 8 (matcher loops 6), alignment driven via match_nodes_impl_recursive, recursion depth 1")
 for suf, pat, k, tier in (("t_cap_t_k2", "[T,$A,T]", 2, "quick"), ("ell_t_k2", "[T,$$$,T]", 2, "quick"), ("t_cap_t_k3", "[T,$A,T]", 3, "thorough")):
-    H(prop="C03", name=f"c03_len_{suf}", crate="core-h", module="c03_align", recursion=REC_FLAT, timeout=1500 if tier == "quick" else 5400, tier=tier, mem_gb=20,
+    H(prop="C03", name=f"c03_len_{suf}", crate="core-h", module="c03_align", kani_args=LIGHT, recursion=REC_FLAT, loops=LOOPS_FLAT, features=["hooks", "n4"], timeout=1500 if tier == "quick" else 5400, tier=tier, mem_gb=20,
       decides=f"pattern {pat}: get_match_len = Some(len) on a FLAT({k}) node with 2-byte children => len <= node length and len ends at a child end",
       functions=ALIGN_FUNCS[:4] + ["ast_grep_core::match_tree::ComputeEnd"], assumes=ALIGN_ASSUMES,
-      shape=f"FLAT({k})", bounds=f"exactly {k} candidate leaves (2 bytes wide), symbolic labels, all 5 strictness; unwind 10, recursion depth 2")
+      shape=f"FLAT({k})", bounds=f"exactly {k} candidate leaves (2 bytes wide), symbolic labels, all 5 strictness; arena of 4 nodes, unwind 8 (matcher loops 6), alignment driven via match_nodes_impl_recursive, recursion depth 1")
 
-H(prop="C03", name="c03_terminal_step", crate="core-h", module="c03_terminal",
+H(prop="C03", name="c03_terminal_step", crate="core-h", module="c03_terminal", features=["hooks", "n4"],
   decides="match_terminal / should_skip_trailing == decision table of the strictness documentation; MatchedBoth => kinds agree (or goal ERROR) and (unnamed or text equal or signature)",
   functions=["ast_grep_core::match_tree::strictness::MatchStrictness::match_terminal", "ast_grep_core::match_tree::strictness::MatchStrictness::should_skip_trailing"],
   assumes=ALIGN_ASSUMES, shape="1 goal x 1 candidate", bounds="goal/candidate kinds in {ident,number,comment,punct_a,punct_b} (+ERROR goal), 1-byte texts, all 5 strictness; unwind 10")
 H(prop="C03", name="c03_should_skip_goal", crate="core-h", module="c03_terminal",
   decides="should_skip_goal consumes exactly the maximal prefix of goals the strictness lets stay unmatched (ellipsis; unnamed holes/tokens under ast/relaxed/signature)",
   functions=["ast_grep_core::match_tree::strictness::MatchStrictness::should_skip_goal"],
-  shape="<=3 goals", bounds="every sequence of <= 3 goals over 6 variants x named bit, all 5 strictness; unwind 6")
+  shape="<=2 goals", bounds="every sequence of <= 2 goals over 6 variants (concrete loops) x symbolic named bits x all 5 strictness; unwind 8")
 H(prop="C03", name="c03_kinds_error_wildcard", crate="core-h", module="c03_terminal",
   decides="are_kinds_matching(goal, cand) <=> goal == cand or goal == ERROR(65535)",
   functions=["ast_grep_core::matcher::kind::kind_utils::are_kinds_matching"], shape="INT", bounds="all u16 x u16")
 
 # ---------------------------------------------------------------- C04 / C01 ops
 OPS_ASSUMES = [ST_TS, ST_MAP, "stub children EnvM: symbolic verdict, optional binding written BEFORE answering (may write and then fail)"]
-H(prop="C04", name="c04_ops_any_env", crate="core-h", module="c04_ops", recursion={"ast_grep_core::match_tree::does_node_match_exactly::<": 1},
+NOMEM = LIGHT
+H(prop="C04", name="c04_ops_any_env", crate="core-h", module="c04_ops", features=["hooks", "n4"], kani_args=NOMEM, timeout=1800, mem_gb=30, recursion={"ast_grep_core::match_tree::does_node_match_exactly::<": 1},
   decides="ops::Any: success exposes exactly the first succeeding branch's bindings on top of the base env; failure leaves the env unchanged; caller's env never mutated",
   functions=["ast_grep_core::ops::Any::match_node_with_env", "ast_grep_core::meta_var::MetaVarEnv::insert", "ast_grep_core::match_tree::does_node_match_exactly"],
   assumes=OPS_ASSUMES, shape="root + 2 leaves", bounds="3 alternatives, names {A,B}, symbolic pre-existing binding, equal/different leaf texts; unwind 10")
-H(prop="C04", name="c04_ops_all_env", crate="core-h", module="c04_ops", recursion={"ast_grep_core::match_tree::does_node_match_exactly::<": 1},
+H(prop="C04", name="c04_ops_all_env", crate="core-h", module="c04_ops", features=["hooks", "n4"], kani_args=NOMEM, timeout=1800, mem_gb=30, recursion={"ast_grep_core::match_tree::does_node_match_exactly::<": 1},
   decides="ops::All: success exposes the union of bindings; failure (incl. a child that wrote and then failed, or a conflicting binding) leaves the env unchanged",
   functions=["ast_grep_core::ops::All::match_node_with_env", "ast_grep_core::meta_var::MetaVarEnv::insert", "ast_grep_core::match_tree::does_node_match_exactly"],
   assumes=OPS_ASSUMES, shape="root + 2 leaves", bounds="3 conjuncts, names {A,B}, symbolic pre-existing binding, equal/different leaf texts; unwind 10")
@@ -182,13 +197,24 @@ H(prop="C01", name="c01_kinds_algebra", crate="core-h", module="c04_ops",
 # ---------------------------------------------------------------- C05 relational rules
 REL_ASSUMES = [ST_TS, ST_SERDE, ST_MAP, "no zero-width nodes; a field labels at most one child (the reference's own preconditions)"]
 REC_RULE = {
-  "std::ptr::drop_glue::<ast_grep_config::Rule<": 4,
-  "std::ptr::drop_glue::<std::boxed::Box<ast_grep_core::ops::Not<": 4,
-  "std::ptr::drop_glue::<ast_grep_core::ops::Not<": 4,
-  "std::ptr::drop_glue::<ast_grep_config::SerializableRule>": 4,
-  "std::ptr::drop_glue::<std::boxed::Box<ast_grep_config::": 4,
-  "<ast_grep_config::rule::relational_rule::Has<": 6,
-  "<ast_grep_config::Rule<": 6,
+  # drop glue of the recursive rule types: SerializableRule has 13 optional recursive fields, so
+  # every extra level multiplies the inlined code by ~13; the values built by the harnesses nest
+  # <= 2 levels (CBMC's recursion unwinding assertion fails the harness if that is ever too small)
+  "std::ptr::drop_glue::<ast_grep_config::Rule<": 3,
+  "std::ptr::drop_glue::<std::boxed::Box<ast_grep_core::ops::Not<": 3,
+  "std::ptr::drop_glue::<ast_grep_core::ops::Not<": 3,
+  "std::ptr::drop_glue::<ast_grep_config::SerializableRule>": 2,
+  "std::ptr::drop_glue::<std::boxed::Box<ast_grep_config::": 2,
+  "std::ptr::drop_glue::<ast_grep_config::verif_hooks::Relation>": 2,
+  "std::ptr::drop_glue::<ast_grep_config::verif_hooks::Maybe<": 2,
+  "std::ptr::mut_ptr::<impl *mut [ast_grep_config::SerializableRule]>::drop_in_place": 2,
+  "std::ptr::drop_glue::<[ast_grep_config::SerializableRule]>": 2,
+  "std::ptr::drop_glue::<std::vec::Vec<ast_grep_config::SerializableRule>>": 2,
+  # `Rule` is a 13-way dispatch that the symbolic engine cannot constant-fold through the heap:
+  # every extra recursion level multiplies the inlined code by ~13. The rule values built by the
+  # harnesses nest exactly 2 levels (outer rule -> inner/stop rule); `Has` recurses down the tree.
+  "<ast_grep_config::rule::relational_rule::Has<": 4,
+  "<ast_grep_config::Rule<": 2,
   "ast_grep_core::match_tree::does_node_match_exactly::<": 1,
 }
 REL_FUNCS = {
@@ -197,56 +223,54 @@ REL_FUNCS = {
   "follows": ["ast_grep_config::rule::relational_rule::Follows::match_node_with_env", "ast_grep_core::node::Node::prev_all"],
   "precedes": ["ast_grep_config::rule::relational_rule::Precedes::match_node_with_env", "ast_grep_core::node::Node::next_all"],
 }
+REL_DIRECT_ASSUMES = [ST_TS, ST_MAP, ST_REGEX, "rule values built from parts through hook constructors (the YAML/serde half and deserialize_rule are not executed: ST6)",
+                      "no zero-width nodes; a field labels at most one child (the reference's own preconditions)"]
 for rel in ("has", "inside", "follows", "precedes"):
     for stop in ("neighbor", "end", "rule"):
-        H(prop="C05", name=f"c05_{rel}_{stop}_n4", crate="config-h", module="c05_rel",
+        H(prop="C05", name=f"c05d_{rel}_{stop}_n4", crate="config-h", module="c05_rel", kani_args=LIGHT,
           decides=f"`{rel}: {{kind: number_, stopBy: {stop}}}` matches node x <=> reference evaluator (quantification over {rel} candidates limited by stopBy, stop rule inclusive), for every node x",
-          functions=REL_FUNCS[rel] + ["ast_grep_config::rule::stop_by::StopBy::find", "ast_grep_config::rule::stop_by::inclusive_until", "ast_grep_config::rule::deserialize_rule"],
-          assumes=REL_ASSUMES + [ST_REGEX], shape="ANY(4)", bounds="every tree <= 4 nodes with kinds in {ident,number,comment}, every target node incl. the root; unwind 10", timeout=1200, mem_gb=20,
+          functions=REL_FUNCS[rel] + ["ast_grep_config::rule::stop_by::StopBy::find", "ast_grep_config::rule::stop_by::inclusive_until"],
+          assumes=REL_DIRECT_ASSUMES, shape="ANY(4)", bounds="every tree <= 4 nodes with kinds in {ident,number,comment}, every target node incl. the root; unwind 10, Rule dispatch depth 2", timeout=1800, mem_gb=20,
           stubbing=True, recursion=REC_RULE)
 for rel in ("has", "inside"):
     for stop in ("neighbor", "end", "rule"):
-        H(prop="C05", name=f"c05_{rel}_field_{stop}_n4", crate="config-h", module="c05_rel",
+        H(prop="C05", name=f"c05d_{rel}_field_{stop}_n4", crate="config-h", module="c05_rel", kani_args=LIGHT,
           decides=f"`{rel}: {{kind: number_, stopBy: {stop}, field: fielda}}` matches node x <=> reference evaluator, for every node x",
           functions=REL_FUNCS[rel] + ["ast_grep_config::rule::stop_by::StopBy::find"],
-          assumes=REL_ASSUMES + [ST_REGEX], shape="ANY(4)", bounds="every tree <= 4 nodes, symbolic field labels, every target node; unwind 10", timeout=1200, mem_gb=20,
-          stubbing=True, recursion=REC_RULE,
+          assumes=REL_DIRECT_ASSUMES, shape="ANY(4)", bounds="every tree <= 4 nodes, symbolic field labels, every target node; unwind 10", timeout=1800, mem_gb=20,
+          stubbing=True, recursion=REC_RULE, tier="quick" if stop != "neighbor" else "thorough",
           kf_keys=["has_field_stop_rule_depth"] if (rel, stop) == ("has", "rule") else [])
 for rel in ("has", "inside", "follows", "precedes"):
-    H(prop="C05", name=f"c05_{rel}_rule_n5", crate="config-h", module="c05_rel", tier="thorough",
+    H(prop="C05", name=f"c05d_{rel}_rule_n5", crate="config-h", module="c05_rel", tier="thorough", kani_args=LIGHT,
       decides=f"`{rel}: {{kind: number_, stopBy: {{kind: comment}}}}` matches node x <=> reference evaluator",
       functions=REL_FUNCS[rel] + ["ast_grep_config::rule::stop_by::StopBy::find", "ast_grep_config::rule::stop_by::inclusive_until"],
-      assumes=REL_ASSUMES + [ST_REGEX], shape="ANY(5)", bounds="every tree <= 5 nodes, every target node; unwind 10", timeout=3600, mem_gb=24,
+      assumes=REL_DIRECT_ASSUMES, shape="ANY(5)", bounds="every tree <= 5 nodes, every target node; unwind 10", timeout=5400, mem_gb=24,
+      stubbing=True, recursion=REC_RULE)
+# the same semantics through the real `deserialize_rule` (serializable rule objects): one
+# representative per relation, thorough tier only (20+ minutes of symbolic execution each)
+for rel, stop in (("has", "rule"), ("inside", "end"), ("follows", "rule"), ("precedes", "neighbor")):
+    H(prop="C05", name=f"c05_{rel}_{stop}_n4", crate="config-h", module="c05_rel", tier="thorough", kani_args=LIGHT,
+      decides=f"`{rel}: {{kind: number_, stopBy: {stop}}}` built by deserialize_rule from a SerializableRule matches node x <=> reference evaluator",
+      functions=REL_FUNCS[rel] + ["ast_grep_config::rule::deserialize_rule", "ast_grep_config::rule::stop_by::StopBy::try_from"],
+      assumes=REL_ASSUMES + [ST_REGEX], shape="ANY(4)", bounds="every tree <= 4 nodes, every target node; unwind 10", timeout=5400, mem_gb=24,
       stubbing=True, recursion=REC_RULE)
 
 # ---------------------------------------------------------------- C14 scan with suppressions
 SCAN_FUNCS = ["ast_grep_config::combined::CombinedScan::scan", "ast_grep_config::combined::CombinedScan::new", "ast_grep_config::combined::Suppressions::collect",
               "ast_grep_config::combined::Suppressions::check_suppression", "ast_grep_config::combined::MaySuppressed::suppressed_id", "ast_grep_config::combined::parse_suppression_set"]
-SCAN_ASSUMES = [ST_TS, ST_SERDE, ST_MAP, ST_REGEX, "single-line statements/comments; node rows are symbolic and independent of the (concrete) comment texts"]
-H(prop="C14", name="c14_suppress_iff_k2", crate="config-h", module="c14_scan", stubbing=True, recursion=REC_RULE, timeout=1800, mem_gb=20,
-  decides="finding (rule,node) reported <=> rule matches node and no applicable suppression (own-line comment on the previous line, or end-of-line comment on the same line, listing the rule or nothing); nothing duplicated",
-  functions=SCAN_FUNCS, assumes=SCAN_ASSUMES, shape="FLAT(2)",
-  bounds="all 20 variant vectors of 2 children over {stmt-a, stmt-b, ignore-all, ignore:ra, ignore:rb, plain comment} with >=1 statement and >=1 suppression, x symbolic monotone lines in [0,4]; 2 rules + unused-suppression rule; unwind 10")
-for first in ("stmta", "ignall", "ignra"):
-    H(prop="C14", name=f"c14_suppress_iff_k3_{first}", crate="config-h", module="c14_scan", stubbing=True, recursion=REC_RULE, timeout=3600, mem_gb=24, tier="thorough",
-      decides="finding (rule,node) reported <=> rule matches node and no applicable suppression; nothing duplicated",
-      functions=SCAN_FUNCS, assumes=SCAN_ASSUMES, shape="FLAT(3)",
-      bounds=f"first child {first}, all 36 variant pairs for children 2,3 (>=1 statement, >=1 suppression) x symbolic monotone lines in [0,4]; unwind 10")
-
-# ---------------------------------------------------------------- C02 cut-and-match
-CUTS = [("self_k1", "no hole", 1, "quick"), ("self_k2", "no hole", 2, "quick"), ("hole0_k2", "hole at child 0", 2, "quick"), ("ell1_k2", "$$$E from child 1", 2, "quick"),
-        ("hole1_k2", "hole at child 1", 2, "thorough"), ("hole01_k2", "holes at children 0,1", 2, "thorough"), ("ell0_k2", "$$$E from child 0", 2, "thorough"),
-        ("self_k3", "no hole", 3, "thorough"), ("hole1_k3", "hole at child 1", 3, "thorough"), ("hole02_k3", "holes at children 0,2", 3, "thorough"),
-        ("ell1_k3", "$$$E from child 1", 3, "thorough"), ("hole0_ell2_k3", "hole at 0, $$$E from child 2", 3, "thorough")]
-for suf, desc, k, tier in CUTS:
-    H(prop="C02", name=f"c02_{suf}", crate="core-h", module="c02_cut", recursion=REC_FLAT, timeout=1500 if tier == "quick" else 5400, tier=tier, mem_gb=20,
-      decides=f"pattern cut from a FLAT({k}) sibling list ({desc}) matches that list at every strictness and binds each hole to exactly the replaced child / siblings",
-      functions=ALIGN_FUNCS + ["ast_grep_core::meta_var::MetaVarEnv::insert_multi"], assumes=ALIGN_ASSUMES + [ST_MAP, "premise of the property assumed: the pattern tree has the code's shape (built from the candidate's own labels)"],
-      shape=f"FLAT({k})", bounds=f"{k} candidate leaves with symbolic kind/text (no ERROR/missing), holes only at named children, all 5 strictness; unwind 10, recursion depth 2")
+SCAN_ASSUMES = [ST_TS, ST_SERDE, ST_MAP, ST_REGEX, "rule configs built from parts through hook constructors (YAML and deserialize_rule not executed)", "single-line statements/comments; node rows are symbolic and independent of the (concrete) comment texts"]
+LAYOUTS = [("ignra_stmta", "[ignore:ra, stmt-a]", "quick"), ("stmta_ignall", "[stmt-a, ignore-all]", "quick"), ("ignrb_stmta", "[ignore:rb, stmt-a]", "thorough"), ("stmtb_ignra", "[stmt-b, ignore:ra]", "thorough"),
+           ("ignra_stmta_ignrb", "[ignore:ra, stmt-a, ignore:rb]", "quick"), ("stmta_ignall_stmtb", "[stmt-a, ignore-all, stmt-b]", "thorough"),
+           ("plain_ignrb_stmtb", "[plain comment, ignore:rb, stmt-b]", "thorough"), ("stmta_ignra_ignrb", "[stmt-a, ignore:ra, ignore:rb]", "thorough")]
+for suf, desc, tier in LAYOUTS:
+    H(prop="C14", name=f"c14_{suf}", crate="config-h", module="c14_scan", stubbing=True, recursion=REC_RULE, timeout=2400 if tier == "quick" else 5400, mem_gb=20, tier=tier,
+      decides="finding (rule,node) reported <=> rule matches node and no applicable suppression (own-line comment on the previous line, or end-of-line comment on the same line, listing the rule or nothing); nothing duplicated",
+      functions=SCAN_FUNCS, assumes=SCAN_ASSUMES, kf_keys=["suppression_same_target_line"], shape=f"FLAT({desc.count(',')+1})",
+      bounds=f"children {desc} (texts concrete), every monotone assignment of lines in [0,4] symbolic; rules ra (kind a), rb (kinds a or b) + unused-suppression rule; unwind 10")
 
 # ---------------------------------------------------------------- C01 combined dispatch
 for name, n, fixmode, tier in (("c01_combined_dispatch_n3", 3, "false", "quick"), ("c01_combined_dispatch_fix_n3", 3, "true", "quick"), ("c01_combined_dispatch_n4", 4, "false", "thorough")):
-    H(prop="C01", name=name, crate="config-h", module="c01_combined", stubbing=True, recursion=REC_RULE, tier=tier, timeout=1800 if tier == "quick" else 5400, mem_gb=20,
+    H(prop="C01", name=name, crate="config-h", module="c01_combined", kani_args=LIGHT, stubbing=True, recursion=REC_RULE, tier=tier, timeout=1800 if tier == "quick" else 5400, mem_gb=20,
       decides="CombinedScan::scan reports, per rule, exactly the nodes the rule matches individually, in document order, no duplicates (matches and diffs)",
       functions=["ast_grep_config::combined::CombinedScan::new", "ast_grep_config::combined::CombinedScan::scan", "ast_grep_config::rule_core::RuleCore::do_match", "ast_grep_core::ops::Any::match_node_with_env"],
       assumes=[ST_TS, ST_SERDE, ST_MAP, ST_REGEX, "rules' kind sets exclude the ERROR kind 65535 (65536-step table growth loop is out of reach)"],
@@ -254,14 +278,48 @@ for name, n, fixmode, tier in (("c01_combined_dispatch_n3", 3, "false", "quick")
 
 # ---------------------------------------------------------------- C11 / C12 config-level
 CFG_ASSUMES = [ST_TS, ST_SERDE, ST_MAP, ST_REGEX]
-H(prop="C11", name="c11_replace_regex_total", crate="config-h", module="c11_transform", stubbing=True, recursion=REC_RULE, timeout=1800, mem_gb=20,
+H(prop="C11", name="c11_replace_regex_total", crate="config-h", module="c11_transform", kani_args=LIGHT, stubbing=True, recursion=REC_RULE, timeout=1800, mem_gb=20,
   decides="a rule with transform.replace either fails to load or scans a matching node without panicking, when Regex::new rejects the user's regex",
   functions=["ast_grep_config::transform::transformation::Replace::compute", "ast_grep_config::transform::transformation::Transformation::parse", "ast_grep_config::rule_core::SerializableRuleCore::get_matcher", "ast_grep_config::rule_core::RuleCore::do_match"],
   assumes=CFG_ASSUMES, shape="pattern f($A,$B) on f(p,qr)", bounds="one config family (source $A, any regex the regex crate rejects); unwind 10")
 for name, desc, tier in (("c12_check_var_str_t1", "string fix, one transform", "quick"), ("c12_check_var_obj_t1", "object-form fix, one transform", "quick"), ("c12_check_var_str_t2", "string fix, two chained transforms", "thorough")):
-    H(prop="C12", name=name, crate="config-h", module="c12_vars", stubbing=True, recursion=REC_RULE, tier=tier, timeout=2400 if tier == "quick" else 5400, mem_gb=20,
+    H(prop="C12", name=name, crate="config-h", module="c12_vars", kani_args=LIGHT, stubbing=True, recursion=REC_RULE, tier=tier, timeout=2400 if tier == "quick" else 5400, mem_gb=20,
       decides="get_matcher accepts <=> every variable used in constraints keys / transform sources / fix is defined and transforms are acyclic; and for an accepted rule the fix variable is replaced by its captured / transformed value",
       functions=["ast_grep_config::check_var::check_rule_with_hint", "ast_grep_config::transform::Transform::deserialize", "ast_grep_config::rule::deserialize_env::TopologicalSort::visit",
                  "ast_grep_config::fixer::Fixer::parse", "ast_grep_core::replacer::template::TemplateFix::generate_replacement", "ast_grep_config::transform::transformation::Substring::compute"],
       assumes=CFG_ASSUMES, kf_keys=["object_fix_ignores_transform"], shape="pattern f($A,$B) on f(p,qr)",
       bounds=f"{desc}; transform sources over {{$A,$B,$C,$T1,$T2}}, constraint key over {{none,A,B,C,T1}}, fix variable over {{A,B,C,T1,T2}} -- all symbolic; unwind 10")
+
+for n, tier in ((4, "quick"), (5, "thorough")):
+    H(prop="C11", name=f"c11_string_case_split_{n}ch", crate="config-h", module="small_kernels", fq=f"small_kernels::proofs_case::c11_string_case_split_{n}ch", tier=tier,
+      decides="string_case::split (word splitter of `convert`) never panics / slices off a char boundary; pieces are in-order non-overlapping sub-slices",
+      functions=["ast_grep_config::transform::string_case::split", "ast_grep_config::transform::string_case::Delimiter::delimit", "ast_grep_config::transform::string_case::Delimiter::conclude"],
+      assumes=[ST_UTF8], shape="STR", bounds=f"all texts of <= {n} chars over {{a, A, _, E-acute(2 bytes, upper case)}}; unwind {2*n}", timeout=1800 if n == 4 else 5400)
+
+# ---------------------------------------------------------------- C06 rewrite transformation
+for k, tier in ((2, "quick"), (3, "thorough")):
+    H(prop="C06", name=f"c06_rewrite_splice_k{k}", crate="config-h", module="c06_rewrite", kani_args=LIGHT, stubbing=True, recursion=dict(REC_RULE, **REC_FLAT), tier=tier, timeout=2400 if tier == "quick" else 5400, mem_gb=24,
+      decides="rewrite transformation == captured text with exactly the rewriter-matched ranges substituted (every other byte preserved), also when the $$$ capture starts with an anonymous node",
+      functions=["ast_grep_config::transform::rewrite::Rewrite::compute", "ast_grep_config::transform::rewrite::replace_one", "ast_grep_config::transform::rewrite::make_edit",
+                 "ast_grep_config::rule_config::SerializableRuleConfig::register_rewriters", "ast_grep_core::matcher::node_match::NodeMatch::make_edit"],
+      assumes=CFG_ASSUMES, shape=f"FLAT({k+1})", bounds=f"pattern f$$$R, rewriter kind:number -> `0`; {k} captured siblings each symbolically number / identifier / anonymous separator; unwind 10")
+
+
+# ---------------------------------------------------------------- C07 indentation
+H(prop="C07", name="c07_indent_at_offset_n8", crate="core-h", module="c07_indent",
+  decides="get_indent_at_offset(prefix) == leading spaces of the last line of prefix",
+  functions=["ast_grep_core::replacer::indent::get_indent_at_offset"], shape="STR", bounds="all prefixes <= 8 bytes over {' ',x,\\n} (below the 512-byte look-ahead window); unwind 10")
+for nm, desc, tier in (("c07_indent_shift_2_to_0", "from column 2 to 0", "quick"), ("c07_indent_identity_1", "column 1 to 1 (self-rewrite)", "quick"),
+                       ("c07_indent_shift_0_to_2", "from column 0 to 2", "thorough"), ("c07_indent_shift_2_to_1", "from column 2 to 1", "thorough")):
+    H(prop="C07", name=nm, crate="core-h", module="c07_indent", timeout=1800, tier=tier,
+      decides="indent_lines(to, extract_with_deindent(text, block)) == block with every continuation line shifted by (to - from); identity when to == from (rewriting a node to itself is a no-op)",
+      functions=["ast_grep_core::replacer::indent::extract_with_deindent", "ast_grep_core::replacer::indent::indent_lines", "ast_grep_core::replacer::indent::remove_indent", "ast_grep_core::replacer::indent::indent_lines_impl"],
+      assumes=["the property's precondition: continuation lines indented at least as far as the first line"],
+      shape="STR", bounds=f"one 3-line block layout, {desc} (sizes concrete), line contents symbolic over {{x,y}}; unwind 34")
+
+for ln, tier in ((4, "quick"), (5, "thorough"), (6, "thorough")):
+    H(prop="C07", name=f"c07_template_scan_len{ln}", crate="core-h", module="c07_template", kani_args=LIGHT, tier=tier, timeout=1800 if ln == 4 else 5400, mem_gb=24,
+      decides="fragments/variables/indents of the parsed template == reference scanner, for every template of this length",
+      functions=TPL_FUNCS, shape="STR", bounds=f"all templates of exactly {ln} bytes over {{$,A,T,_,1,' ',\\n}}, transform keys {{T}}; unwind 10")
+
+
